@@ -349,6 +349,48 @@ func EarlyRacy(i int) int {
 	return early()[i&3]
 }
 
+// pooled scratch memory
+type scratch struct{ a, s [16]byte }
+
+var scratchPool = sync.Pool{New: func() interface{} { return new(scratch) }}
+
+type Holder struct{ last *scratch }
+
+func PoolOK(x byte) byte {
+	sc := scratchPool.Get().(*scratch)
+	*sc = scratch{}
+	sc.a[0] = x
+	r := sc.a[0] ^ sc.s[1]
+	scratchPool.Put(sc)
+	return r
+}
+func PoolDeferOK(x byte) byte {
+	sc := scratchPool.Get().(*scratch)
+	defer scratchPool.Put(sc)
+	*sc = scratch{}
+	sc.a[0] = x
+	return sc.a[0]
+}
+func PoolUseAfterPut(x byte) byte {
+	sc := scratchPool.Get().(*scratch)
+	*sc = scratch{}
+	scratchPool.Put(sc)
+	sc.a[0] = x
+	return sc.a[0]
+}
+func (h *Holder) PoolKept(x byte) {
+	sc := scratchPool.Get().(*scratch)
+	*sc = scratch{}
+	h.last = sc
+	scratchPool.Put(sc)
+}
+func PoolReturned() []byte {
+	sc := scratchPool.Get().(*scratch)
+	defer scratchPool.Put(sc)
+	return sc.a[:]
+}
+func PoolForeign(b *scratch) { scratchPool.Put(b) }
+
 // firstArg: what is stored depends on the first caller's argument (the literal captures it)
 var firstOnce sync.Once
 var firstVal int
@@ -561,6 +603,13 @@ func c10Fixture(c *Ctx) {
 		{"R7.globals|lorawan.counter", fxBad},
 		{"R7.globals|lorawan.regMu", fxOK},
 		{"R7.globals|lorawan.sqTab", fxOK},
+		{"R7.globals|lorawan.scratchPool", fxOK},
+		{"R7.pool|lorawan.PoolOK/Put#1", fxOK},
+		{"R7.pool|lorawan.PoolDeferOK/Put#1", fxOK},
+		{"R7.pool|lorawan.PoolUseAfterPut/Put#1", fxBad},
+		{"R7.pool|lorawan.Holder.PoolKept/Put#1", fxBad},
+		{"R7.pool|lorawan.PoolReturned/Put#1", fxBad},
+		{"R7.pool|lorawan.PoolForeign/Put#1", fxBad},
 		{"R7.globals|lorawan.earlyTab", fxBad},
 		{"R7.globals|lorawan.firstVal", fxBad},
 		{"R7.lock|lorawan.reg@lorawan.Get/lookup reg", fxBad},
